@@ -2,7 +2,7 @@
    Each is closed by [exact] of a lemma from Proofs*.v and followed by Print Assumptions.
    Unclaimed full statements are [Definition ... : Prop] at the end. *)
 Require Import Base.Prelude C15.Model C15.Spec.
-Require Import C15.ProofsRegions C15.ProofsFollow C15.ProofsScan C15.ProofsBounded.
+Require Import C15.ProofsRegions C15.ProofsFollow C15.ProofsScan C15.BoundedCommon C15.ProofsBoundedSmall.
 Require Import Coq.Relations.Relation_Operators.
 
 (* ---- labelling stage: universal (any raster, any size below 2^32-1 cells) ---- *)
@@ -82,43 +82,52 @@ Proof. exact transform_ring_spec. Qed.
 Print Assumptions C15_transform_every_vertex.
 
 (* ---- bounded: the full property on a finite domain, by computation in the kernel VM ---- *)
+(* small_shape5 nx ny : nx*ny <= 5;  small_shape nx ny : nx*ny <= 6 or 3x3 or 2x4 or 4x2  (nx, ny >= 1: 1x1, 1xN, Nx1 included).
+   A larger domain (3 values and masks up to 8 cells and 3x3) is proved the same way in Extended.v, checked by coqc only. *)
 
-(* For EVERY raster over {0,1,2} without mask, both connectivities, every shape with <= 8 cells
-   (1xN, Nx1, 1x1 included) and 3x3: the model returns polygons (the follower never exhausts its
-   4*nx*ny fuel) and lossless_check holds: rings closed / on corners / axis parallel, exteriors
-   anticlockwise and holes clockwise (shoelace sign), every cell centre in exactly one polygon
-   (even-odd, exterior minus holes) which carries the cell's value, polygon area = its cell count,
-   two cells share a polygon iff they are in the same connected component *)
+(* For EVERY raster without mask over {0,1,2} on every shape with <= 5 cells, and over {0,1} on every shape with
+   <= 6 cells and 3x3, 2x4, 4x2, both connectivities: the model returns polygons (the follower never exhausts
+   its 4*nx*ny fuel) and lossless_check holds: rings closed / on corners / axis parallel, exteriors anticlockwise and
+   holes clockwise (shoelace sign), every cell centre in exactly one polygon (even-odd, exterior minus holes) which
+   carries the cell's value, polygon area = its cell count, two cells share a polygon iff same connected component *)
 Theorem C15_bounded_lossless_small : forall nx ny conn8 vals,
-  small_shape nx ny -> lenZ vals = nx * ny -> Forall (fun v => In v [0; 1; 2]) vals ->
+  (small_shape5 nx ny /\ Forall (fun v => In v [0; 1; 2]) vals) \/
+  (small_shape nx ny /\ Forall (fun v => In v [0; 1]) vals) ->
+  lenZ vals = nx * ny ->
   exists out, polygonize_model vals None conn8 None nx ny = Some out /\
               lossless_check vals None conn8 nx ny out = true.
-Proof. intros. apply check_one_lossless. now apply bounded_nomask. Qed.
+Proof.
+  intros nx ny conn8 vals [[Hs Hf]|[Hs Hf]] Hl; apply check_one_lossless.
+  - now apply small3_nomask.
+  - now apply small2_nomask.
+Qed.
 Print Assumptions C15_bounded_lossless_small.
 
-(* the same with a mask: every assignment of {masked, 0, 1} to the cells (masked cells hold the value 0,
-   which the code never reads); masked cells lie in no polygon *)
+(* the same with a mask: every assignment of {masked, 0, 1} to the cells of every shape with <= 5 cells (masked cells
+   hold the value 0, which the code never reads); masked cells lie in no polygon *)
 Theorem C15_bounded_lossless_small_masked : forall nx ny conn8 cs,
-  small_shape nx ny -> lenZ cs = nx * ny -> Forall (fun c => In c [None; Some 0; Some 1]) cs ->
+  small_shape5 nx ny -> lenZ cs = nx * ny -> Forall (fun c => In c [None; Some 0; Some 1]) cs ->
   exists out, polygonize_model (vals_of cs) (Some (mask_of cs)) conn8 None nx ny = Some out /\
               lossless_check (vals_of cs) (Some (mask_of cs)) conn8 nx ny out = true.
-Proof. intros. apply check_one_lossless. now apply bounded_mask. Qed.
+Proof. intros. apply check_one_lossless. now apply small_mask. Qed.
 Print Assumptions C15_bounded_lossless_small_masked.
 
-(* regions are components on the same bounded domain (nx >= 2): region 0 exactly on masked cells and
-   two unmasked cells get the same region id iff min-label propagation gives them the same component *)
-Theorem C15_bounded_regions_are_components_small : forall nx ny conn8,
-  small_shape nx ny -> nx <> 1 ->
-  (forall vals, lenZ vals = nx * ny -> Forall (fun v => In v [0; 1; 2]) vals ->
+(* regions are components on the same bounded domain (nx >= 2): region 0 exactly on masked cells and two unmasked
+   cells get the same region id iff min-label propagation gives them the same component *)
+Theorem C15_bounded_regions_are_components_small : forall nx ny conn8, nx <> 1 ->
+  (forall vals, (small_shape5 nx ny /\ Forall (fun v => In v [0; 1; 2]) vals) \/
+                (small_shape nx ny /\ Forall (fun v => In v [0; 1]) vals) -> lenZ vals = nx * ny ->
      exists regions, calculate_regions vals None conn8 nx ny = Some regions /\
                      regions_check vals None conn8 nx ny regions = true) /\
-  (forall cs, lenZ cs = nx * ny -> Forall (fun c => In c [None; Some 0; Some 1]) cs ->
+  (forall cs, small_shape5 nx ny -> lenZ cs = nx * ny -> Forall (fun c => In c [None; Some 0; Some 1]) cs ->
      exists regions, calculate_regions (vals_of cs) (Some (mask_of cs)) conn8 nx ny = Some regions /\
                      regions_check (vals_of cs) (Some (mask_of cs)) conn8 nx ny regions = true).
 Proof.
-  intros nx ny conn8 Hs Hnx. split; intros; apply check_one_regions; auto.
-  - now apply bounded_nomask.
-  - now apply bounded_mask.
+  intros nx ny conn8 Hnx. split.
+  - intros vals [[Hs Hf]|[Hs Hf]] Hl; apply check_one_regions; auto.
+    + now apply small3_nomask.
+    + now apply small2_nomask.
+  - intros. apply check_one_regions; auto. now apply small_mask.
 Qed.
 Print Assumptions C15_bounded_regions_are_components_small.
 
@@ -150,8 +159,8 @@ Example C15_nonvacuous_ring_with_hole :
   polygonize_model [1; 1; 1; 1; 0; 1; 1; 1; 1] None false (Some [2; 0; 10; 0; -1; 5]) 3 3 =
     Some ([1; 0], [[[(10, 5); (16, 5); (16, 2); (10, 2); (10, 5)]; [(14, 4); (12, 4); (12, 3); (14, 3); (14, 4)]];
                    [[(12, 4); (14, 4); (14, 3); (12, 3); (12, 4)]]]) /\
-  small_shape 3 3 /\ small_shape 1 8 /\ small_shape 8 1 /\ small_shape 1 1.
-Proof. split; [reflexivity|]. split; [reflexivity|]. unfold small_shape. lia. Qed.
+  small_shape 3 3 /\ small_shape 2 4 /\ small_shape 1 6 /\ small_shape5 5 1 /\ small_shape5 1 1.
+Proof. split; [reflexivity|]. split; [reflexivity|]. unfold small_shape, small_shape5. lia. Qed.
 
 (* the 8-connected pinch [[1,2],[2,1]]: both diagonals are single (bow-tie) polygons of area 2 *)
 Example C15_nonvacuous_pinch :
